@@ -55,6 +55,12 @@ def check(ctx):
     r16_7(ctx, schema, extras)
     r16_8(ctx, extras)
     ctx.not_decided.append("trailing blanks of the last optional field are removed by rstrip() before splitting (observation, outside the armed rules)")
+    # mechanisms this property rests on (see shared.py): a change there is reported here as well
+    from . import shared as _sh
+
+    _sh.gaf_reader(ctx)
+    _sh.cli_layer(ctx, "gaftools.cli.view")
+    _sh.cli_layer(ctx, "gaftools.cli.realign")
 
 
 # ---------------------------------------------------------------------------------------------
@@ -230,7 +236,7 @@ def r16_2(ctx, pf, loop):
     ctx.check(ok, "R16.2", pf.where(loop), "the tag loop scans the optional columns only (fields[12:]), so a read name or path shaped like a tag is never re-emitted as a field", key_of(pf, f"tag-loop-iter:{norm(it)}"), iter=norm(it))
 
 
-def r16_3_6(ctx, pf, loop, info):
+def r16_3_6(ctx, pf, loop, info, report_repeats=True):
     kv, vv = info["key_var"], info["val_var"]
     if kv is None:
         raise AnalysisError("R16.6", pf.where(loop), "cannot identify the tag key variable")
@@ -307,6 +313,17 @@ def r16_3_6(ctx, pf, loop, info):
                 out.setdefault(any(e.kind == "stmt" and e.node in stores for e in p.events), p)
         return out
 
+    # the loop looks at every field: a path that leaves it (break / return) after a well-formed field loses the rest
+    for p in paths:
+        if p.term in ("break", "return"):
+            for key in classes:
+                for present in (False, True):
+                    if all((lambda v: v is None or v == pol)(ev(t, (key, present))) for t, pol in p.tests()):
+                        ctx.violated("R16.6", pf.where(loop), f"the scan of the optional fields stops ({p.term}) after a well-formed field ({key}...): every field behind it is lost (e.g. tp:A: written after the CIGAR)", key_of(pf, f"tag-loop-left:{p.term}:{key}"), path=p.show())
+                        break
+                else:
+                    continue
+                break
     rep_reported = False
     n_worlds = 0
     for key in classes:
@@ -322,7 +339,7 @@ def r16_3_6(ctx, pf, loop, info):
                 continue
             p = out[False]
             if present and key != "cg:Z:":
-                if not rep_reported:
+                if not rep_reported and report_repeats:
                     rep_reported = True
                     ctx.violated("R16.3", pf.where(loop), "a repeated tag is dropped: the mapping is keyed by TAG:TYPE: and only the first occurrence is kept", "gaftools.gaf::optional-field-parser::repeated-tag-first-wins", path=p.show())
                 continue
